@@ -102,10 +102,18 @@ def matrix(draw, kind, nmax):
                 W = np.abs(W)
     else:
         W = draw(gen.weights_for(A, draw(st.sampled_from(["bin", "dyadic", "dyadic"])), directed))
+    if kind == "sign" and draw(st.integers(0, 4)) == 0:
+        # a nonzero but very small total of negative weight (e.g. a few links of about -1e-10): still negative weights
+        neg = W < 0
+        if neg.any():
+            W = np.where(neg, W * 2.0 ** -33, W)
+    if not kind.startswith("bin"):
+        # the whole matrix in another unit: quality values are scale-invariant
+        W = W * draw(st.sampled_from(gen.POW2_SCALES))
     if draw(st.integers(0, 3)) == 0:                # self-loops (the gain formulas contain W[u,u])
         d = draw(st.lists(st.integers(0, 4), min_size=n, max_size=n))
         for i, v in enumerate(d):
-            W[i, i] = v / 4.0 if not kind.startswith("bin") else float(v > 2)
+            W[i, i] = (v / 4.0) * (np.max(np.abs(W)) or 1.0) if not kind.startswith("bin") else float(v > 2)
     if draw(st.booleans()):
         W = gen.apply_perm(W, draw(gen.perm(n)))
     return W
@@ -132,8 +140,20 @@ def cases(draw, name, nmax, give_start=None):
         elif obj == "potts":
             kind = draw(st.sampled_from(["bin-und", "bin-dir"]))
         else:
-            kind = "sign"
-    W = draw(matrix(kind, nmax))
+            kind = draw(st.sampled_from(["sign", "sign-dir"]))      # the docstring accepts directed input for every objective
+    W = draw(matrix("sign" if kind == "sign-dir" else kind, nmax))
+    if kind == "sign-dir":
+        # make the signed matrix genuinely directed: drop one direction of some connections
+        n_ = len(W)
+        drop = draw(st.lists(st.integers(0, 2), min_size=n_ * (n_ - 1) // 2, max_size=n_ * (n_ - 1) // 2))
+        for (i, j), dd in zip(gen.pairs(n_, False), drop):
+            if dd == 1:
+                W[i, j] = 0
+            elif dd == 2:
+                W[j, i] = 0
+        if W.sum() <= 0 or not np.any(W > 0):
+            W[0, 1] = abs(W).max() * 4 or 1.0
+        kind = "sign"
     if np.all((W == 0) | (W == 1)) and draw(st.integers(0, 3)) == 0:
         W = W.astype(np.int64)          # 0/1 matrices are often stored as integers
     case["W"] = W
